@@ -204,6 +204,7 @@ pub fn run(args: &Args) -> i32 {
     {
         let mut points = std::collections::BTreeMap::new();
         points.insert("pool::before_reorg_lock", (250u64, 2_500u64));
+        points.insert("assembler::after_prepare_uncles", (300u64, 2_000u64));
         hooks::set_plan(hooks::DelayPlan { points, seed: args.seed ^ 0x9e37 });
     }
     let mk = |id: &str, rule: &str| Report::new(id, "exploration", args, rule);
@@ -267,6 +268,7 @@ pub fn run(args: &Args) -> i32 {
     r.c13.require("templates_with_txs", 1);
     r.c13.require("obs.late_fill.templates_after_uncle_or_proposal_update", 3);
     r.c13.require("obs.cpfp.templates_at_cycle_limit", 3);
+    r.c13.require("obs.uncle_race.next_block_embeds_the_candidate", 3);
     if sessions >= 7 {
         r.c13.require("obs.tiny_reward.templates_with_empty_cellbase", 3);
     }
@@ -439,6 +441,8 @@ fn run_session(rng: &mut Rng, si: u64, n_ops: u64, r: &mut Reports) {
             30 => Some(3),
             12 => Some(7),
             20 => Some(8),
+            26 => Some(9),
+            54 => Some(9),
             48 => Some(8),
             37 => Some(6),
             44 => Some(1),
@@ -459,6 +463,7 @@ fn run_session(rng: &mut Rng, si: u64, n_ops: u64, r: &mut Reports) {
                 6 => s.op_readd_family(r),
                 7 => s.op_cellref_evict(r),
                 8 => s.op_block_burst(r),
+                9 => s.op_uncle_race(r),
                 _ => s.op_pool_pressure(r),
             };
             if !ok {
@@ -2187,6 +2192,64 @@ impl Sess {
                 true
             }
         }
+    }
+
+
+    /// C13 (uncle update racing with a tip change): U1, a sibling of the tip, reaches the node and
+    /// the block assembler starts adding it to the template (held at the hook point after the
+    /// uncle selection by an injected delay); block A2 -- child of the tip that already embeds
+    /// U1 -- arrives right behind it and a template on top of A2 is installed. Every template
+    /// taken afterwards is judged as usual (U1 must not show up as an uncle again).
+    fn op_uncle_race(&mut self, r: &mut Reports) -> bool {
+        let Some(pre) = self.quiesce() else { return false };
+        let tip = self.n_tip();
+        let tip_n = self.tg.rc.get(&tip).number;
+        if tip_n < 2 {
+            return true;
+        }
+        // U1: the tip's block with another timestamp (a valid sibling), known to the model so
+        // that the builder can embed it as an uncle of the next block
+        let tipb = std::sync::Arc::clone(&self.tg.rc.get(&tip).block);
+        self.salt += 1;
+        let header = tipb.header().as_advanced_builder().timestamp(tipb.timestamp() + 1 + 3 * (self.salt % 300)).build();
+        let sib = builder::seal(&self.gi.consensus, builder::replace_header(&tipb, header.data()));
+        let epoch = self.tg.rc.get(&tip).epoch.clone();
+        let u1 = self.tg.rc.add(&sib, true, None, epoch);
+        self.tg.order.push(u1);
+        let saved = (self.tg.cfg.uncle_pm, self.tg.cfg.max_new_txs);
+        self.tg.cfg.uncle_pm = 1000;
+        self.tg.cfg.max_new_txs = 0;
+        let a2 = self.tg.extend_ex(&tip, &[]);
+        self.tg.cfg.uncle_pm = saved.0;
+        self.tg.cfg.max_new_txs = saved.1;
+        let embeds = self.tg.rc.get(&a2).block.uncles().hashes().into_iter().any(|x| h(&x) == u1);
+        r.c13.count("ops.scenario_uncle_race");
+        // the delay sits between the assembler's uncle selection and its write into the template
+        {
+            let mut points = std::collections::BTreeMap::new();
+            points.insert("pool::before_reorg_lock", (250u64, 2_500u64));
+            points.insert("assembler::after_prepare_uncles", (2000u64, 6_000u64));
+            hooks::set_plan(hooks::DelayPlan { points, seed: self.salt });
+        }
+        let ok = self.deliver(&[u1, a2], r);
+        std::thread::sleep(Duration::from_millis(15));
+        {
+            let mut points = std::collections::BTreeMap::new();
+            points.insert("pool::before_reorg_lock", (250u64, 2_500u64));
+            points.insert("assembler::after_prepare_uncles", (300u64, 2_000u64));
+            hooks::set_plan(hooks::DelayPlan { points, seed: self.salt });
+        }
+        if !ok {
+            return false;
+        }
+        if embeds {
+            r.c13.count("obs.uncle_race.next_block_embeds_the_candidate");
+        }
+        if !self.finish_block_op(&pre, tip, &[a2], 0, r) {
+            return false;
+        }
+        self.settle_template();
+        self.check_template(r, 0, false).is_some()
     }
 
     /// C11: submissions until the pool's size limit evicts (or refuses) something; only in
